@@ -221,6 +221,18 @@ func (c *Ctx) Finish(verifDir string, seed int, wall float64, cmd string) int {
 		fmt.Printf("note: known finding no longer matches anything (stale): %s\n", k.Raw)
 	}
 
+	if c.Assumptions == nil {
+		c.Assumptions = []string{}
+	}
+	if c.Trusted == nil {
+		c.Trusted = []string{}
+	}
+	if c.NotDecided == nil {
+		c.NotDecided = []string{}
+	}
+	for _, nd := range c.NotDecided {
+		c.Assumptions = append(c.Assumptions, "not decided by this check: "+nd)
+	}
 	evDir := filepath.Join(verifDir, "evidence")
 	os.MkdirAll(evDir, 0o755)
 	violPath := filepath.Join(evDir, c.Prop+".violations.json")
@@ -254,22 +266,22 @@ func (c *Ctx) Finish(verifDir string, seed int, wall float64, cmd string) int {
 		stale = append(stale, k.Raw)
 	}
 	coverage := map[string]interface{}{
-		"obligations":         len(c.Obs),
-		"discharged":          nOK,
-		"known_findings":      len(res.Known),
-		"failed":              len(res.Bad),
-		"evaluations":         len(c.Obs),
-		"distinct_nontrivial": len(distinct),
-		"rule":                "one obligation per {rule, construct} instance found in /repo's type-checked source; distinct_nontrivial counts distinct {rule, construct} pairs whose construct is a resolved object (function, field, table cell, call site) of /repo; instance-floor bookkeeping obligations are excluded from that count",
-		"checker_cmd":         cmd,
-		"trusted_base":        c.Trusted,
-		"explanation":         c.Explanation,
-		"not_decided":         c.NotDecided,
-		"samples":             samples,
-		"by_rule":             ruleCounts,
-		"analysed":            c.Analysed,
+		"obligations":          len(c.Obs),
+		"discharged":           nOK,
+		"known_findings":       len(res.Known),
+		"failed":               len(res.Bad),
+		"evaluations":          len(c.Obs),
+		"distinct_nontrivial":  len(distinct),
+		"rule":                 "one obligation per {rule, construct} instance found in /repo's type-checked source; distinct_nontrivial counts distinct {rule, construct} pairs whose construct is a resolved object (function, field, table cell, call site) of /repo; instance-floor bookkeeping obligations are excluded from that count",
+		"checker_cmd":          cmd,
+		"trusted_base":         c.Trusted,
+		"explanation":          c.Explanation,
+		"not_decided":          c.NotDecided,
+		"samples":              samples,
+		"by_rule":              ruleCounts,
+		"analysed":             c.Analysed,
 		"stale_known_findings": stale,
-		"exhaustive":          c.Level == "proof",
+		"exhaustive":           c.Level == "proof",
 	}
 	for k, v := range c.Extra {
 		coverage[k] = v
